@@ -42,8 +42,12 @@ def poly(rng):
     elif k < 0.85: cs = [sq(ox, oy, 3), sq(ox + 2, oy + 2, 3)]
     else: cs = [[(ox, oy), (ox + rng.randint(2, 6), oy + 1), (ox + 1, oy + rng.randint(2, 6))]]
     cmds = []
-    for c in cs:
-        cmds.append(['M', [F(c[0][0]), F(c[0][1])]])
+    for k_, c in enumerate(cs):
+        if k_ > 0 and cmds and cmds[-1][0] == 'Z' and rng.random() < 0.3:
+            # no moveto: the new subpath starts where the closed one started; go to the contour's first point by a line from there
+            cmds.append(['L', [F(c[0][0]), F(c[0][1])]])
+        else:
+            cmds.append(['M', [F(c[0][0]), F(c[0][1])]])
         for p in c[1:]: cmds.append(['L', [F(p[0]), F(p[1])]])
         if rng.random() < 0.85: cmds.append(['Z', []])
     return cmds
